@@ -10,7 +10,7 @@ RULE = (
     "computation is a Tasklang program (sync re-entry nested up to 4 deep, several batch kinds, contexts) with failures "
     "drawn from every class: raise at any task step, item error/unset, flush body raising, failing lazy Future, "
     "ErrorFuture, junk, AsyncContext.resume()/pause() raising at their n-th call, an on_before_batch_flush subscriber "
-    "raising, NonAsyncContext aborts, and runaway task recursion stopped by a lowered MAX_TASK_STACK_SIZE (at top "
+    "raising, the scheduler's own flush() call raising, NonAsyncContext aborts, and runaway task recursion stopped by a lowered MAX_TASK_STACK_SIZE (at top "
     "level and inside nested sync calls). Probes: at every body step and after every nested sync call returns, "
     "get_active_task() is the task running that body (identified through its public args); after the outermost call "
     "returns it is None. After every computation: str(get_scheduler()) and the public attributes show 0 tasks and no "
@@ -98,7 +98,7 @@ def scheduler_state():
 
 def make_case(cs, rnd):
     """One computation of a history: (program, options)."""
-    kind = rnd.choice(["plain", "plain", "ctxfault", "ctxfault", "before", "runaway", "runaway", "nonasync"])
+    kind = rnd.choice(["plain", "plain", "ctxfault", "ctxfault", "before", "runaway", "runaway", "nonasync", "evilflush"])
     opts = {"kind": kind}
     if kind == "nonasync":
         prog = gen.generate(cs, PROFILE_NA)
@@ -112,6 +112,10 @@ def make_case(cs, rnd):
                 prog["ctx_faults"][nm] = [rnd.choice(["resume", "pause", "pause"]), rnd.randint(1, 3)]
     elif kind == "before":
         opts["before_raise"] = rnd.randint(1, 3)
+    elif kind == "evilflush":
+        # the scheduler's own batch.flush() call raises (flushed by a before-subscriber / overridden flush() /
+        # _try_switch_active_batch raising)
+        opts["evil"] = [rnd.choice(["preflush", "override", "switch"]), rnd.randrange(3)]
     elif kind == "runaway":
         # replace one leaf (anywhere, so also under nested sync calls) by a runaway chain
         from .. import faults
@@ -182,6 +186,8 @@ def run_unit(unit, progress):
 
                 rt.sync_probes.append(after_sync)
             rt.before_raise = opts.get("before_raise")
+            if opts.get("evil"):
+                rt.evil = tuple(opts["evil"])
             old_max = asynq.debug.options.MAX_TASK_STACK_SIZE
             old_dump = asynq.debug.options.DUMP_PRE_ERROR_STATE
             if "max_stack" in opts:
@@ -207,6 +213,8 @@ def run_unit(unit, progress):
                     cls = str(d[1][0])
                 elif d:
                     cls = str(d[0])
+                if opts.get("evil") and rt.evil_fired:
+                    cls = "failing_flush_call"
                 inc("ended_by_" + cls)
                 res["nontrivial"].append(hash((lang.struct_hash(prog), repr(sorted(opts.items())))) & 0xFFFFFFFFFFFF)
             else:
@@ -311,6 +319,7 @@ def reach(c, tier):
         "ended_by_ctx",
         "ended_by_before-subscriber",
         "ended_by_NonAsync",
+        "ended_by_failing_flush_call",
     ):
         if not c.get(k):
             out.append("%s is zero" % k)
